@@ -195,6 +195,9 @@ def run_threaded(sc):
     stop_flag = threading.Event()
 
     def sender(i, items):
+        d = (sc.get('send_delay') or {}).get(i, (sc.get('send_delay') or {}).get(str(i), 0))
+        if d:
+            time.sleep(d)       # this side's users start sending later: the peer is already in the middle of its own transmission
         for (rid, payload) in items:
             threadrun._tl.cur_id = rid
             try:
@@ -365,6 +368,15 @@ class C13(PropBase):
             yield {'ops': [], 'seed': 4242 + k, 'transport': transport, 'addrs': (a, b),
                    'params': ({'blocksize': 0, 'stmin': 40}, {'blocksize': 0, 'stmin': 40}), 'senders': senders, 'latency': 0,
                    'read_timeout': 0.05, 'noise': False, 'perturb': 0, 'cf_timeout_ms': 1500, 'fc_timeout_ms': 5000}
+
+        # late joiner: layer 0 is already STREAMING its Consecutive Frames (paced by the peer's STmin, nothing being received) when the peer's
+        # user sends a multi-frame message of its own.  The First Frame must be answered while the stream goes on - the default-sized N_Bs
+        # (1 s) of the peer is far below the time the stream still lasts (about 2.4 s), and far above any scheduling delay.
+        for k, transport in enumerate(['queue_blocking', 'canstack'] if tier == 'quick' else ['queue_blocking', 'queue_legacy', 'canstack', 'notifier'] * 2):
+            senders = {0: [[(1, bytes([0, 0, 0]) + bytes([0x33] * 200))]], 1: [[(2, bytes([1, 0, 0]) + bytes([0x44] * 40))]]}
+            yield {'ops': [], 'seed': 4300 + k, 'transport': transport, 'addrs': (a, b),
+                   'params': ({'blocksize': 0, 'stmin': 0}, {'blocksize': 0, 'stmin': 80}), 'senders': senders, 'latency': 0,
+                   'read_timeout': 0.05, 'noise': False, 'perturb': 0, 'cf_timeout_ms': 5000, 'fc_timeout_ms': 1000, 'send_delay': {1: 0.5}}
 
     def run_impl(self, sc):
         return run_threaded(sc)
